@@ -548,6 +548,9 @@ def main(tier="quick", seed=0, procs=None, only=None):
     run.rule = "engine: one case = one DAG x flags x root; programs: one case = one program x requires_grad subset; all real values, all upstream gradients per case"
     run.under_contract(TENSOR_BACKWARD)
     cases = engine_cases(tier, seed) + pattern_programs() + random_programs(120 if tier == "quick" else 500, 6 if tier == "quick" else 8, seed)
+    # "for any upstream gradient": also one that is the .grad an earlier sweep left on a tensor INSIDE the graph now being differentiated (C04's histories with that event)
+    from . import c04
+    cases += [h for h in c04.histories("quick", seed) if "BWG_last" in h.events]
     if only:
         cases = [c for c in cases if only in c.name]
     from ..catalog import canaries
